@@ -253,7 +253,7 @@ class Interp:
                     return False
                 if ("isnone", y) in st.facts:
                     return True
-                if y[0] in ("elem", "tuple", "snapshot", "list_of", "without", "append", "children0", "chain"):
+                if y[0] in ("elem", "tuple", "snapshot", "list_of", "without", "append", "children0", "chain", "const", "literal"):
                     return False
         if ("same", a, b) in st.facts or ("same", b, a) in st.facts:
             return True
@@ -356,6 +356,13 @@ class Interp:
                 yield s1, ("raise", exc)
                 return
             call = s.exc
+            if isinstance(call, ast.Name):
+                # `e = SomeError(...); raise e`: the class is that of the (unique) constructor bound to the name
+                ctors = [n_.value for n_ in ast.walk(func.node) if isinstance(n_, ast.Assign) and len(n_.targets) == 1
+                         and isinstance(n_.targets[0], ast.Name) and n_.targets[0].id == call.id and isinstance(n_.value, ast.Call)]
+                names = {norm(c.func) for c in ctors}
+                if len(names) == 1:
+                    call = ast.copy_location(ast.Call(func=ctors[0].func, args=[], keywords=[]), call)
             args = call.args if isinstance(call, ast.Call) else []
             clsname = norm(call.func) if isinstance(call, ast.Call) else norm(call)
             # evaluate constructor arguments for events (message formatting is pure)
@@ -854,6 +861,8 @@ class Interp:
                         yield s1, ("extend", base, r), None
                 elif isinstance(e.op, ast.Add) and r[0] in ("list_of", "children0", "without", "append", "snapshot"):
                     yield s1, ("prepend", r, l), None
+                elif isinstance(e.op, ast.Mod) and l[0] == "const" and l[1][:1] in "'\"":
+                    yield s1, ("const", "str:" + norm(e)[:40]), None  # "fmt" % args is a str: never None
                 else:
                     yield s1, ("unknown", norm(e)), None
             return
